@@ -29,10 +29,19 @@ Theorem C13_accepted_record_is_complete_and_checksummed :
     unle (firstn 4 (skipn blen b)) = crc32 (firstn blen b).
 Proof. exact parse_record_spec. Qed.
 
-(* nothing after the first invalid record: the files behind it do not influence the replay *)
+(* nothing after a validation error (a file whose scan ended in one): the files behind it do not influence
+   the replay. (A reader error - checksum, cut header - ends only its own file; what follows is applied only
+   if it continues the numbering, which after a skipped record only a second copy of that record can.) *)
 Theorem C13_nothing_after_invalid :
-  forall pre rs post e, replay_files (pre ++ (rs, true) :: post) e = replay_files (pre ++ [(rs, true)]) e.
+  forall pre rs post e, replay_files (pre ++ (rs, FBad) :: post) e = replay_files (pre ++ [(rs, FBad)]) e.
 Proof. exact replay_stops_at_invalid. Qed.
+
+(* a record whose header could be read is judged by its id first: out of sequence, the whole replay stops
+   there, whatever the rest of that record or the later files hold *)
+Theorem C13_out_of_sequence_header_stops_replay :
+  forall rs id post e l e', replay_recs rs e = (l, Some e') -> id <> e' -> replay_files ((rs, FCut id) :: post) e = l.
+Proof. exact replay_stops_at_out_of_sequence_header. Qed.
+Print Assumptions C13_out_of_sequence_header_stops_replay.
 
 (* the scanner's fuel never runs out (no record is dropped for lack of fuel) *)
 Theorem C13_scanner_total :
@@ -59,7 +68,7 @@ Proof. exact torn_record_never_applied. Qed.
 Theorem C13_cut_inside_checksum_is_end_of_file :
   forall ncols id acts n,
   id < 2 ^ 64 -> Forall (wf_action ncols) acts -> (n < 4)%nat ->
-  parse_record ncols (ser_body id acts ++ firstn n (le 4 (crc32 (ser_body id acts)))) = PEof.
+  parse_record ncols (ser_body id acts ++ firstn n (le 4 (crc32 (ser_body id acts)))) = PCut id.
 Proof. exact torn_checksum_is_eof. Qed.
 
 (* The resulting state: a damaged log can only lose records. When the replayed prefix [t, m) still
@@ -82,14 +91,19 @@ Theorem C13_older_prefix_over_newer_tables_refuted :
     forall n, exists l, apply_recs (sub (recs w) (t w) 1) (C w) l <> apply_recs (firstn n (recs w)) (fun _ => 0) l.
 Proof. exact damaged_replay_older_refuted. Qed.
 
-(* Non-vacuity: two files; the first holds two valid records (ids 7, 8) and a third whose checksum is
-   wrong, the second holds record 10. Only 7 and 8 are applied. A record cut short ends its file
-   without ending the replay. *)
+(* Non-vacuity. Records 7, 8, then a record 9 whose checksum is wrong, then a file holding record 10: only
+   7 and 8 are applied (10 is out of sequence). A checksum error or a record cut inside an action header is a
+   reader error: it ends ITS file, and a second copy of record 9 in the next file is still applied. A record
+   cut inside a payload, or naming a column that does not exist, is a validation error: everything left is
+   discarded. Stray bytes after a record end that file. *)
 Definition ex_rec (id : N) : bytes := serialize id [AValue 0 1 [3; 0; 9; 9; 9]].
 Definition ex_bad : bytes := match rev (ex_rec 9) with x :: r => rev ((x + 1) mod 256 :: r) | [] => [] end.
 Example C13_nonvacuous :
   replay_ids 1 [ex_rec 10; ex_rec 7 ++ ex_rec 8 ++ ex_bad] = [7; 8] /\
-  replay_ids 1 [ex_rec 9 ++ ex_rec 10; ex_rec 7 ++ ex_rec 8 ++ firstn 20 (ex_rec 9)] = [7; 8; 9; 10] /\
+  replay_ids 1 [ex_rec 9 ++ ex_rec 10; ex_rec 7 ++ ex_rec 8 ++ ex_bad] = [7; 8; 9; 10] /\
+  replay_ids 1 [ex_rec 9 ++ ex_rec 10; ex_rec 7 ++ ex_rec 8 ++ firstn 15 (ex_rec 9)] = [7; 8; 9; 10] /\
+  replay_ids 1 [ex_rec 9 ++ ex_rec 10; ex_rec 7 ++ ex_rec 8 ++ firstn 20 (ex_rec 9)] = [7; 8] /\
+  replay_ids 2 [ex_rec 9; ex_rec 7 ++ serialize 8 [AValue 999 1 [3; 0; 9; 9; 9]]] = [7] /\
   replay_ids 1 [ex_rec 10; ex_rec 7 ++ ex_rec 8] = [7; 8] /\
   replay_ids 1 [[1; 2; 3]; ex_rec 7 ++ [77]] = [7].
 Proof. vm_compute. repeat split; reflexivity. Qed.
